@@ -6,6 +6,9 @@
 
 use super::*;
 
+// DIRLEN (<= 2), SRCLEN (1..=2): lengths of the configuration directory and of source_dir in u_ctx_new
+include!("verif_bounds.rs");
+
 static mut EXISTS: bool = false;
 static mut READ_OK: bool = false;
 static mut PARSE_OK: bool = false;
@@ -127,6 +130,15 @@ fn stub_path_join<P: AsRef<std::path::Path>>(_this: &std::path::Path, _p: P) -> 
 
 /// memory is never freed (see verif_generate.rs::stub_dealloc)
 unsafe fn stub_dealloc(_ptr: *mut u8, _layout: std::alloc::Layout) {}
+/// growing a buffer = a fresh allocation plus a copy; the old block is never freed (CBMC's realloc model raises
+/// spurious `free argument`/`rust_dealloc` failures on buffers grown by Path::join)
+unsafe fn stub_realloc(ptr: *mut u8, layout: std::alloc::Layout, new_size: usize) -> *mut u8
+{
+    let new = std::alloc::alloc(std::alloc::Layout::from_size_align_unchecked(new_size, layout.align()));
+    let n = if layout.size() < new_size { layout.size() } else { new_size };
+    std::ptr::copy_nonoverlapping(ptr, new, n);
+    new
+}
 
 fn any_config() -> Config
 {
@@ -219,4 +231,236 @@ fn u_ctx_write()
         }
     }
     std::mem::forget(ctx);
+}
+
+// ---------------------------------------------------------------------------------------------
+// C15: where the source directory and the lock file are looked for (Context::new, real Path::join)
+// ---------------------------------------------------------------------------------------------
+static mut CFG_OK: bool = true;
+static mut CFG_SRC: [u8; 2] = [0; 2];
+static mut CFG_SRC_LEN: usize = 0;
+static mut CFG_USE_CACHE: bool = true;
+static mut DIR: [u8; 2] = [0; 2];
+static mut DIR_LEN: usize = 0;
+static mut PATH_CHECKS: usize = 0;
+static mut PATH_OK: bool = true;
+const LOCK_NAME: &[u8] = b"Breadlog.lock";
+
+trait FromYaml: Sized
+{
+    fn make() -> Option<Self>;
+}
+impl FromYaml for Cache
+{
+    fn make() -> Option<Self>
+    {
+        unsafe { if PARSE_OK { Some(Cache { next_reference_id: PARSED }) } else { None } }
+    }
+}
+impl FromYaml for Config
+{
+    fn make() -> Option<Self>
+    {
+        unsafe {
+            if !CFG_OK
+            {
+                return None;
+            }
+            let mut v: Vec<u8> = Vec::new();
+            if CFG_SRC_LEN > 0 { v.push(CFG_SRC[0]); }
+            if CFG_SRC_LEN > 1 { v.push(CFG_SRC[1]); }
+            Some(Config {
+                config_dir: String::new(),
+                source_dir: String::from_utf8_unchecked(v),
+                use_cache: CFG_USE_CACHE,
+                rust: RustConfig { structured: false, log_macros: Vec::new(), extensions: Vec::new() },
+            })
+        }
+    }
+}
+fn stub_yaml_from_str2<'de, T>(_s: &'de str) -> Result<T, serde_yaml::Error>
+where
+    T: serde::Deserialize<'de> + FromYaml,
+{
+    unsafe { PARSES += 1 };
+    match T::make()
+    {
+        Some(v) => Ok(v),
+        None => Err(<serde_yaml::Error as serde::de::Error>::custom(String::new())),
+    }
+}
+
+/// `dir` joined with `name` as the documentation of Path::join has it for relative `name`:
+/// a separator is added unless `dir` is empty or already ends with one
+unsafe fn path_is_dir_plus(p: &[u8], name: &[u8]) -> bool
+{
+    let sep = if DIR_LEN > 0 && DIR[DIR_LEN - 1] != b'/' { 1 } else { 0 };
+    if p.len() != DIR_LEN + sep + name.len()
+    {
+        return false;
+    }
+    let mut ok = true;
+    if DIR_LEN > 0 && p[0] != DIR[0] { ok = false; }
+    if DIR_LEN > 1 && p[1] != DIR[1] { ok = false; }
+    if sep == 1 && p[DIR_LEN] != b'/' { ok = false; }
+    let mut i = 0;
+    while i < name.len()
+    {
+        if p[DIR_LEN + sep + i] != name[i]
+        {
+            ok = false;
+        }
+        i += 1;
+    }
+    ok
+}
+fn stub_exists_at(p: &std::path::Path) -> bool
+{
+    unsafe {
+        STATS += 1;
+        PATH_CHECKS += 1;
+        if !path_is_dir_plus(p.as_os_str().as_encoded_bytes(), LOCK_NAME) { PATH_OK = false; }
+        EXISTS
+    }
+}
+fn stub_read_to_string_at<P: AsRef<std::path::Path>>(p: P) -> std::io::Result<String>
+{
+    unsafe {
+        READS += 1;
+        PATH_CHECKS += 1;
+        if !path_is_dir_plus(p.as_ref().as_os_str().as_encoded_bytes(), LOCK_NAME) { PATH_OK = false; }
+    }
+    std::mem::forget(p);
+    unsafe { if READ_OK { Ok(String::from("x")) } else { Err(std::io::Error::new(std::io::ErrorKind::Other, "e")) } }
+}
+fn stub_write_at<P: AsRef<std::path::Path>, C: AsRef<[u8]>>(p: P, _c: C) -> std::io::Result<()>
+{
+    unsafe {
+        MUTATIONS += 1;
+        WRITTEN = SERIALIZED;
+        PATH_CHECKS += 1;
+        if !path_is_dir_plus(p.as_ref().as_os_str().as_encoded_bytes(), LOCK_NAME) { PATH_OK = false; }
+    }
+    std::mem::forget(p);
+    Ok(())
+}
+fn stub_from_utf8(v: &[u8]) -> Result<&str, std::str::Utf8Error>
+{
+    // every path in this harness is ASCII
+    Ok(unsafe { std::str::from_utf8_unchecked(v) })
+}
+fn dir_char() -> u8
+{
+    let c: u8 = kani::any();
+    kani::assume(c == b'c' || c == b'/' || c == b'.');
+    c
+}
+unsafe fn any_dir() -> String
+{
+    // fixed per run (symbolic lengths multiply the paths through std's path code)
+    DIR_LEN = DIRLEN;
+    let mut v: Vec<u8> = Vec::new();
+    if DIR_LEN > 0 { DIR[0] = dir_char(); v.push(DIR[0]); }
+    if DIR_LEN > 1 { DIR[1] = dir_char(); v.push(DIR[1]); }
+    String::from_utf8_unchecked(v)
+}
+
+#[kani::proof]
+#[kani::unwind(20)]
+#[kani::stub(std::path::Path::exists, stub_exists_at)]
+#[kani::stub(std::fs::read_to_string, stub_read_to_string_at)]
+#[kani::stub(serde_yaml::from_str, stub_yaml_from_str2)]
+#[kani::stub(core::str::from_utf8, stub_from_utf8)]
+#[kani::stub(std::alloc::dealloc, stub_dealloc)]
+#[kani::stub(std::alloc::realloc, stub_realloc)]
+fn u_ctx_new()
+{
+    log::set_max_level(log::LevelFilter::Off);
+    let dir = unsafe { any_dir() };
+    unsafe {
+        // the configuration parses (the error branch formats a serde_yaml error: `to_string()` is out of CBMC's reach)
+        CFG_OK = true;
+        CFG_SRC_LEN = SRCLEN;
+        CFG_SRC[0] = kani::any();
+        kani::assume(CFG_SRC[0] == b's' || CFG_SRC[0] == b'/' || CFG_SRC[0] == b'.');
+        CFG_SRC[1] = kani::any();
+        kani::assume(CFG_SRC[1] == b's' || CFG_SRC[1] == b'/' || CFG_SRC[1] == b'.');
+        CFG_USE_CACHE = kani::any();
+        EXISTS = kani::any();
+        // reading and parsing succeed: their failures are u_ctx_read's subject, and dropping an io::Error or a
+        // serde_yaml::Error makes CBMC's allocator model raise spurious failures that would mask the assertions below
+        READ_OK = true;
+        PARSE_OK = true;
+        PARSED = kani::any();
+    }
+    let check_mode: bool = kani::any();
+    let r = Context::new(String::new(), dir.as_str(), check_mode);
+    unsafe {
+        assert!(PATH_OK, "C15: the lock file is looked for next to the configuration file (<config dir>/Breadlog.lock)");
+        if CFG_USE_CACHE && CFG_OK
+        {
+            assert!(PATH_CHECKS >= 1, "C15: the lock file is looked for next to the configuration file (<config dir>/Breadlog.lock)");
+        }
+        match &r
+        {
+            Err(_) => assert!(!CFG_OK, "C16: a configuration that parses is accepted"),
+            Ok(ctx) =>
+            {
+                assert!(CFG_OK, "C16: a configuration that does not parse is rejected");
+                let got = ctx.config.source_dir.as_bytes();
+                let src_abs = CFG_SRC[0] == b'/';
+                let good = if src_abs
+                {
+                    got.len() == CFG_SRC_LEN && got[0] == CFG_SRC[0] && (CFG_SRC_LEN < 2 || got[1] == CFG_SRC[1])
+                }
+                else if CFG_SRC_LEN == 1
+                {
+                    path_is_dir_plus(got, &[CFG_SRC[0]])
+                }
+                else
+                {
+                    path_is_dir_plus(got, &[CFG_SRC[0], CFG_SRC[1]])
+                };
+                assert!(good, "C15: a relative source directory is resolved against the directory of the configuration file, an absolute one is kept");
+                let cd = ctx.config.config_dir.as_bytes();
+                assert!(cd.len() == DIR_LEN && (DIR_LEN < 1 || cd[0] == DIR[0]) && (DIR_LEN < 2 || cd[1] == DIR[1]),
+                        "C15: the context records the directory of the configuration file");
+                assert!(ctx.check_mode == check_mode, "C04: the mode asked for is the mode recorded");
+                kani::cover!(!src_abs, "relative source dir joined to the config dir");
+                kani::cover!(src_abs, "absolute source dir");
+            },
+        }
+        kani::cover!(PATH_CHECKS >= 2, "lock looked up and read");
+    }
+    std::mem::forget(r);
+    std::mem::forget(dir);
+}
+
+/// the lock is written next to the configuration file (real Path::join)
+#[kani::proof]
+#[kani::unwind(20)]
+#[kani::stub(serde_yaml::to_string, stub_yaml_to_string)]
+#[kani::stub(std::fs::write, stub_write_at)]
+#[kani::stub(std::alloc::dealloc, stub_dealloc)]
+#[kani::stub(std::alloc::realloc, stub_realloc)]
+fn u_ctx_write_path()
+{
+    log::set_max_level(log::LevelFilter::Off);
+    let dir = unsafe { any_dir() };
+    let mut cfg = any_config();
+    cfg.use_cache = true;
+    let ctx = Context {
+        config: cfg,
+        cached_next_reference_id: None,
+        check_mode: false,
+        stop_commanded: std::sync::Arc::new(std::sync::atomic::AtomicBool::new(kani::any())),
+    };
+    let id: u32 = kani::any();
+    ctx.cache_next_reference_id(id, dir.as_str());
+    unsafe {
+        assert!(MUTATIONS == 1 && PATH_OK, "C15: the lock file is written next to the configuration file (<config dir>/Breadlog.lock)");
+        kani::cover!(MUTATIONS == 1 && PATH_OK, "lock written next to the configuration file");
+    }
+    std::mem::forget(ctx);
+    std::mem::forget(dir);
 }
